@@ -53,6 +53,9 @@ def worlds(tier, seed):
                         maximize=bool((j // 2) % 2),
                         sprout={"kind": "composed", "gen": {"kind": "nbc", "factor": (1.0, 0.5)[j % 2], "trunc": 1.0}, "deme_chain": ([], [{"kind": "demelimit", "limit": 3}])[(j // 2) % 2],
                                 "tree_chain": chain if j % 3 else chain[::-1], "L": 4}))
+    # the largest seeds numpy accepts: the per-deme CMA-ES seed (random_seed + start metaepoch) lands on 2**32 - 1
+    for j, eng in enumerate([("SEA", "CMAf"), ("DE", "CMAw"), ("LHS", "CMAs"), ("SHADE", "DE")]):
+        out.append(dict(engines=list(eng), gens=1 + j % 2, Mh=3, seed=2**32 - 2, sprout={"kind": "simple", "L": 1}, hib=bool(j % 2), drive="run", request_probe=False, obj="twofunnel"))
     # random_seed = 0 is a seed like any other
     for eng in [e for e in shapes_h2() if e[1].startswith("CMA")] + [("SEA",), ("LHS", "SOB"), ("DE", "SHADE")]:
         k += 1
